@@ -456,6 +456,9 @@ func init() {
 				add("k2-batch", merge(base, p("k", 2, "ops", opPut|opBatch, "bmax", 1, "dfs_lo", 100, "dfs_hi", 150)))
 				add("k2-permute", merge(base, p("k", 2, "ops", opPut|opDelete, "vlens", 2, "dfs_lo", 60, "dfs_hi", 100, "permute", 1)))
 				add("k2-powerloss", merge(base, p("k", 2, "ops", opPut|opDelete, "dfs_lo", 60, "dfs_hi", 100, "powerloss", 1, "crash2", 0)))
+				add("k3-crashed-merge-then-merge", merge(base, p("k", 3, "ops", opPut|opDelete, "dfs_lo", 60, "dfs_hi", 100, "crash2", 0, "aftermerge", 1, "tailops", opMerge)))
+				add("k2-crashed-merge-then-merge-crash2", merge(base, p("k", 2, "ops", opPut, "dfs_lo", 60, "dfs_hi", 100, "aftermerge", 1, "tailops", opMerge|opRestart)))
+				add("k3-permute-3files-crash2", merge(base, p("k", 3, "ops", opPut|opDelete, "dfs_lo", 60, "dfs_hi", 66, "permute", 1)))
 			}
 			js = append(js, JobSpec{Name: "witness", Harness: "root", Func: "verifHarnessCrash", Params: merge(base, p("k", 1, "ops", opPut, "witness", 1, "crash2", 0)), Scale: scaleDF(32), Witness: true})
 			return js
